@@ -45,7 +45,7 @@ pub fn check_case(ctx: &Ctx, case: &Case, with_cli: bool, t: &mut Tally) {
     }
     let picks = [cands[r.usize(cands.len())], cands[r.usize(cands.len())]];
     // per-carrier results are bitwise reproducible unless auxiliaries are regenerated (their order varies)
-    let deterministic_per_carrier = !case.spec.has_aux();
+    let deterministic_per_carrier = per_carrier_deterministic(&case.spec);
     let tol = Tol::for_steps(case.spec.n);
     for (c, pow2) in picks {
         let s2 = case.spec.scaled(c);
